@@ -61,6 +61,40 @@ def vertical_eval(prog: Program, vertdiff: bool, vertadv: bool, advection: bool 
     return it, fr, dom, facts, log, z0, fi
 
 
+def axis_discipline(prog: Program, rep: Report, rule: str) -> None:
+    """In every grid class of the package - the default one and the alternative modules a configuration can name -
+    a 2-D array attribute read at a particle position is indexed [row from Y, column from X], and a subgrid
+    offset subtracted from an index is the offset of the same axis (j0 with Y, i0 with X). Decided per method with
+    parameters X and Y from the definitions of the two index expressions."""
+    from ..program import expand_locals
+
+    n = 0
+    for mname, mi in sorted(prog.modules.items()):
+        for cname, cls in mi.classes.items():
+            if cname != "Grid":
+                continue
+            for q, fi in mi.functions.items():
+                if fi.cls != cname or not {"X", "Y"} <= set(fi.params):
+                    continue
+                prog.consulted.add(mname)
+                for sub in walk_no_nested(fi.node):
+                    if not (isinstance(sub, ast.Subscript) and isinstance(sub.value, ast.Attribute) and unparse(sub.value.value) == "self" and isinstance(sub.slice, ast.Tuple) and len(sub.slice.elts) == 2):
+                        continue
+                    row, col = (expand_locals(e, fi.node) for e in sub.slice.elts)
+                    if any(isinstance(e, ast.Slice) for e in (row, col)):
+                        continue
+                    names = lambda e: {x.id for x in ast.walk(e) if isinstance(x, ast.Name)} | {x.attr for x in ast.walk(e) if isinstance(x, ast.Attribute)}  # noqa: E731
+                    rn, cn = names(row), names(col)
+                    if not ({"X", "Y"} & (rn | cn)):
+                        continue
+                    n += 1
+                    ok = "Y" in rn and "X" not in rn and "X" in cn and "Y" not in cn
+                    ok_off = not ({"i0", "i1"} & rn) and not ({"j0", "j1"} & cn)
+                    rep.check(rule, fi.qual, short(sub), ok and ok_off, what_bad=f"row index `{short(row, 50)}` / column index `{short(col, 50)}`: the arrays of a grid are stored [y, x]; the row must come from Y (offset j0) and the column from X (offset i0) - a particle would get the depth, metric or mask of another cell", what_ok="[row from Y, column from X]", loc=fi.loc(sub))
+    if n < 8:
+        raise AnalysisError(f"only {n} position-indexed reads of 2-D grid arrays found (10 confirmed by hand)")
+
+
 def run(prog: Program, rep: Report, tier: str) -> None:
     rep.level = "proof"
     rep.explanation = (
@@ -105,6 +139,8 @@ def run(prog: Program, rep: Report, tier: str) -> None:
     from . import c14
 
     c14.step_attribute_freshness(prog, rep, "R15.2", roles=("tracker",))
+    rep.rule("R15.5", "every grid class (default and alternative modules) reads its 2-D arrays at [row from Y, column from X] with the offsets of the matching axis", 8)
+    axis_discipline(prog, rep, "R15.5")
     rep.rule("R15.3", "the depth a particle is reflected at is the depth sampled for that particle (same particle list; shared with C14 R14.7)", 1)
     from . import align
 
